@@ -239,6 +239,7 @@ def modelStmt (ver : Version) (mn : MNum) (st : MSt) (s : Stmt) : String × MSt 
   | .fwd h take | .fwd2 h take | .run h take =>
     let h := match s with | .run q _ => st.seqs.getD q 1000000 | _ => h
     let digitsOnly : Bool := match s with | .fwd2 _ _ => true | _ => false
+    if h == 2000000 then ("?", unknownMemo st) else
     match (st.handles[h]? : Option MH) with
     | some (.h3 v) =>
       if take ≤ 0 then ("-", st) else
@@ -262,6 +263,11 @@ def modelStmt (ver : Version) (mn : MNum) (st : MSt) (s : Stmt) : String × MSt 
     | none => ("na", st)
   | .mkseq h =>
     if isV3 then ("ok", { st with seqs := st.seqs.push h }) else ("na", st)
+  | .mkseqb h =>
+    -- a stored Backward() sequence: recorded (as an unknown handle), its runs are not modelled
+    (match (st.handles[h]? : Option MH) with
+     | some (.h3 v) => if v.assertsFiniteSeq then ("ok", { st with seqs := st.seqs.push 2000000 }) else ("na", st)
+     | _ => ("na", st))
   | .back h take | .back2 h take =>
     let isBack2 : Bool := match s with | .back2 _ _ => true | _ => false
     match (st.handles[h]? : Option MH) with
